@@ -29,7 +29,7 @@ def rand_cfg(rnd, small=True):
              tCCD=rnd.choice([1, 2, 4]), tRRD=rnd.choice([None, 1, 2, 4]), tRC=None, tRAS=rnd.choice([None, 2, 5, 9]),
              tZQCS=rnd.choice([None, None, 4, 16]))
     t["tRC"] = None if t["tRAS"] is None else t["tRAS"] + t["tRP"] + rnd.choice([0, 0, 1])
-    cs = dict(cmd_buffer_depth=rnd.choice([2, 3, 4, 8]), read_time=rnd.choice([0, 4, 8, 32]), write_time=rnd.choice([0, 4, 16]),
+    cs = dict(cmd_buffer_depth=rnd.choice([0, 1, 1, 2, 3, 4, 8]), read_time=rnd.choice([0, 4, 8, 32]), write_time=rnd.choice([0, 4, 16]),
               with_refresh=rnd.random() < 0.85, refresh_postponing=rnd.choice([1, 1, 2, 4, 8]),
               with_auto_precharge=rnd.random() < 0.6, zq_period=rnd.choice([300, 450, 700]))
     return dict(memtype=memtype, nphases=nphases, align=align, bankbits=bankbits, rankbits=rankbits, colbits=colbits, rowbits=rowbits,
@@ -220,6 +220,8 @@ def rand_core_cfg(rnd):
     while True:
         cfg = rand_cfg(rnd)
         cfg["rankbits"] = 0
+        if cfg["ctrl"]["cmd_buffer_depth"] == 0:
+            cfg["ctrl"]["cmd_buffer_depth"] = 1     # depth 0 (a wire) is covered at controller level; see Model/Core.lean bankFb
         bl = {"SDR": cfg["nphases"], "DDR": 4, "LPDDR": 4, "DDR2": 4, "DDR3": 8, "DDR4": 8}[cfg["memtype"]]
         if BURST_MODEL[cfg["memtype"]] * cfg["nphases"] != bl:
             continue          # e.g. DDR3 1:2 would need two controller words per burst: not a configuration the PHYs offer
